@@ -271,6 +271,8 @@ def _run_lines(binary, mode, lines, timeout, nproc=None, extra_env=None, stall=N
 
             def reader():
                 for raw in p.stdout:
+                    if not raw.endswith(b"\n"):
+                        continue        # a line cut off by the death of the process is no answer
                     l = raw.decode("utf-8", "replace").rstrip("\n")
                     sp = l.split(" ", 1)
                     with lock:
